@@ -16,6 +16,11 @@ use std::sync::{Arc, Mutex};
 
 static STUCK_PROGRAMS: std::sync::atomic::AtomicUsize = std::sync::atomic::AtomicUsize::new(0);
 
+/// per-call results are kept as JSON text inside the explorer (cheap de-duplication) and parsed for the trace
+pub fn parse_results(r: &[Vec<String>]) -> Value {
+    Value::Array(r.iter().map(|t| Value::Array(t.iter().map(|s| serde_json::from_str(s).unwrap_or(json!([s]))).collect())).collect())
+}
+
 fn pv(s: &str) -> Vec<String> {
     if s.is_empty() {
         vec![]
@@ -209,7 +214,7 @@ pub fn run(prop: &str, tier: &str, seed: u64, out_dir: &Path, threads: usize) ->
                         "pre_remove": job.pre_remove.iter().map(|p| pv(p)).collect::<Vec<_>>(),
                         "universe": universe,
                         "progs": job.progs.iter().map(|p| p.iter().map(|c| c.to_json()).collect::<Vec<_>>()).collect::<Vec<_>>(),
-                        "results": results, "final": fin, "stuck": stuck, "schedule": sched,
+                        "results": parse_results(results), "final": fin, "stuck": stuck, "schedule": sched,
                         "seq": seq, "schedules": ex.schedules, "bound": job.max_preempt.map(|x| x as i64).unwrap_or(-1), "truncated": ex.truncated});
                     out.begin(&e);
                     let mut s = samples.lock().unwrap();
@@ -265,7 +270,7 @@ pub fn run_one(spec: &Value, out_dir: &Path) -> Value {
     let mut hist = vec![];
     for (_k, (results, fin, sched, stuck)) in ex.histories.iter() {
         let e = json!({"ev":"hist","prop":spec["prop"],"cfg":cfg,"job":0,"init":spec["init"],"pre_remove":spec["pre_remove"],"universe":universe,"progs":spec["progs"],
-            "results":results,"final":fin,"stuck":stuck,"schedule":sched,"seq":seq,"schedules":ex.schedules,"bound":bound,"truncated":ex.truncated});
+            "results":parse_results(results),"final":fin,"stuck":stuck,"schedule":sched,"seq":seq,"schedules":ex.schedules,"bound":bound,"truncated":ex.truncated});
         out.begin(&e);
         hist.push(json!({"results":results,"final":fin,"schedule":sched}));
     }
